@@ -160,7 +160,59 @@ var probeMarker = []byte{0xAF, 1, 0xde, 0xad, 0xbe, 0xef, 1, 2, 3, 4}
 
 // probe checks that a healthy publisher + subscriber pair on another stream of
 // the same server still relays a marker.
-func probe(s *inproc.Server) *pbt.Violation {
+// bystanderMarker is sent through the pre-existing feed pair at the end of a case.
+var bystanderMarker = []byte{0xAF, 1, 0xb1, 0x57, 0xa2, 0xde, 0x12, 9, 8, 7}
+
+// bystander checks "closing that session only": the healthy publisher that was publishing c13feed before the hostile
+// exchange began can still send, and the subscriber that was attached to it still receives.
+func bystander(s *inproc.Server, fd *feed) *pbt.Violation {
+	if fd == nil {
+		return nil
+	}
+	fd.n++
+	fd.note(fd.p.Send(gen.TypeAudio, fd.n*40, bystanderMarker, 0))
+	if fd.err != nil {
+		if v := s.PanicViolation(); v != nil {
+			return v
+		}
+		return pbt.V("bystander-session-closed", "the healthy publisher of c13feed, connected before the hostile exchange, can no longer send: %v", fd.err)
+	}
+	if fd.sub.WaitFor(func(r lalclient.Rec) bool { return bytes.Equal(r.Payload, bystanderMarker) }, lalclient.DeliverTimeout) < 0 {
+		if v := s.PanicViolation(); v != nil {
+			return v
+		}
+		return pbt.V("bystander-session-closed", "the subscriber attached to c13feed before the hostile exchange no longer receives what its publisher sends (ended=%v err=%v)", fd.sub.Ended(), fd.sub.Err())
+	}
+	return nil
+}
+
+// note counts a run-time observation into the evidence file (counters).  pbt's counters are process-wide and are
+// snapshotted by every sub-property that finishes later, so every Test starts by taking back what was counted before it.
+var (
+	noteMu sync.Mutex
+	notes  = map[string]int{}
+)
+
+func note(name string) {
+	noteMu.Lock()
+	notes[name]++
+	noteMu.Unlock()
+	pbt.Count(name, 1)
+}
+
+func resetNotes() {
+	noteMu.Lock()
+	defer noteMu.Unlock()
+	for k, v := range notes {
+		pbt.Count(k, -v)
+		delete(notes, k)
+	}
+}
+
+func probe(s *inproc.Server, fd *feed) *pbt.Violation {
+	if v := bystander(s, fd); v != nil {
+		return v
+	}
 	sub := lalclient.NewRtmpSub(s, "live", "c13probe")
 	if err := sub.JoinErr(); err != nil {
 		if v := s.PanicViolation(); v != nil {
@@ -244,6 +296,7 @@ type hostileListener struct {
 	accepted int
 	finished int
 	conns    []net.Conn
+	recv     []byte // what the peers of the current case sent (first 64 KiB)
 }
 
 var (
@@ -316,6 +369,7 @@ func newHostileServerSeg(script func(conn int) []segment) *hostileServer {
 	l.script = script
 	l.gen++
 	l.base = l.accepted
+	l.recv = nil
 	l.finished = 0
 	l.accepted = l.base
 	l.mu.Unlock()
@@ -342,6 +396,13 @@ func (h *hostileListener) serve(c net.Conn, segs []segment, gen int) {
 			rmu.Lock()
 			received += n
 			rmu.Unlock()
+			if n > 0 {
+				h.mu.Lock()
+				if gen == h.gen && len(h.recv) < 64<<10 {
+					h.recv = append(h.recv, buf[:n]...)
+				}
+				h.mu.Unlock()
+			}
 			if err != nil {
 				close(peerClosed)
 				return
@@ -418,6 +479,13 @@ func (hs *hostileServer) waitServed(n int, d time.Duration) bool {
 		h.cond.Wait()
 	}
 	return true
+}
+
+// received returns what lal has sent to the stub during this case (first 64 KiB).
+func (hs *hostileServer) received() string {
+	hs.l.mu.Lock()
+	defer hs.l.mu.Unlock()
+	return string(hs.l.recv)
 }
 
 // attempts is the number of connections accepted for this case.
